@@ -1,0 +1,136 @@
+//go:build verif
+
+package collection
+
+// Machine-checked contracts for package collection (comment-only; read by /verif/engine).
+// Notation: view(x) is the abstract sequence of a collection; indices in views are
+// 0-based, API ordinals 1-based; n is the entry size.
+
+//@ define valid(i, n) := n > 0 && i != 0 && -n <= i && i <= n
+//@ define norm(i, n) := ite(i > 0, i - 1, i + n)
+
+// ---------------------------------------------------------------- Sequential
+
+//@ iface Sequential.IsEmpty
+//@   nopanic
+//@   ensures result <==> len(view(this)) == 0
+//@ iface Sequential.GetSize
+//@   nopanic
+//@   ensures result == len(view(this)) && result <= MAXLEN
+//@ iface Sequential.AsArray
+//@   nopanic
+//@   ensures fresh(result) && view(result) == view(this) && len(result) <= MAXLEN
+//@ iface Sequential.GetIterator
+//@   nopanic
+//@   ensures fresh(result) && result != nil && snap(result) == view(this) && pos(result) == 0
+
+// ---------------------------------------------------------------- Accessible / Updatable
+
+//@ iface Accessible.GetValue
+//@   let n := len(view(this))
+//@   ensures valid(index, n) && result == view(this)[norm(index, n)]
+//@   xensures !valid(index, n)
+//@ iface Accessible.GetValues
+//@   let n := len(view(this))
+//@   ensures valid(first, n) && valid(last, n) && norm(first, n) <= norm(last, n) + 1
+//@   ensures fresh(result) && result != nil && view(result) == view(this)[norm(first, n) : norm(last, n) + 1]
+//@   xensures !valid(first, n) || !valid(last, n) || norm(first, n) > norm(last, n) + 1
+
+//@ iface Updatable.SetValue
+//@   let n := len(view(this))
+//@   modifies view(this)
+//@   ensures valid(index, n) && view(this) == update(old(view(this)), norm(index, n), value)
+//@   xensures !valid(index, n) && view(this) == old(view(this))
+//@ iface Updatable.SetValues
+//@   let n := len(view(this))
+//@   let m := len(view(values))
+//@   let f := norm(index, n)
+//@   modifies view(this)
+//@   ensures m == 0 ==> view(this) == old(view(this))
+//@   ensures m >= 1 ==> valid(index, n) && f + m <= n && view(this) == old(view(this))[0:f] ++ old(view(values)) ++ old(view(this))[f + m : n]
+//@   xensures view(this) == old(view(this))
+//@   xensures m >= 1 ==> !(valid(index, n) && f + m <= n)
+
+// ---------------------------------------------------------------- class accessors and class interfaces
+
+//@ assume func Array
+//@   nopanic
+//@   ensures result != nil
+//@ assume func List
+//@   nopanic
+//@   ensures result != nil
+//@ assume func Set
+//@   nopanic
+//@   ensures result != nil
+//@ assume func Stack
+//@   nopanic
+//@   ensures result != nil
+//@ assume func Queue
+//@   nopanic
+//@   ensures result != nil
+//@ assume func Catalog
+//@   nopanic
+//@   ensures result != nil
+//@ assume func Map
+//@   nopanic
+//@   ensures result != nil
+//@ assume func Association
+//@   nopanic
+//@   ensures result != nil
+
+//@ iface ArrayClassLike.Notation
+//@   nopanic
+//@ iface ListClassLike.Notation
+//@   nopanic
+
+//@ iface ArrayClassLike.Make
+//@   ensures size <= MAXLEN2 && fresh(result) && result != nil && view(result) == zeros(size, zero(V))
+//@   xensures size > MAXLEN2
+//@ iface ArrayClassLike.MakeFromArray
+//@   nopanic
+//@   ensures fresh(result) && result != nil && view(result) == view(values)
+//@ iface ArrayClassLike.MakeFromSequence
+//@   nopanic
+//@   ensures fresh(result) && result != nil && view(result) == view(values)
+
+// ---------------------------------------------------------------- array_ (C01, C18)
+
+//@ func (*arrayClass_).Make
+//@   props C01 C18
+//@   implements ArrayClassLike.Make
+//@ func (*arrayClass_).MakeFromArray
+//@   props C01 C18
+//@   implements ArrayClassLike.MakeFromArray
+//@ func (*arrayClass_).MakeFromSequence
+//@   props C01 C18
+//@   implements ArrayClassLike.MakeFromSequence
+//@   loop 1:
+//@     invariant 0 <= index && index <= size && size == len(view(values)) && len(array) == size
+//@     invariant pos(iterator) == index && snap(iterator) == old(view(values))
+//@     invariant forall j :: 0 <= j && j < index ==> array[j] == old(view(values))[j]
+//@     decreases size - index
+
+//@ func (array_).GetValue
+//@   props C01
+//@   implements Accessible.GetValue
+//@ func (array_).GetValues
+//@   props C01 C18
+//@   implements Accessible.GetValues
+//@ func (array_).IsEmpty
+//@   props C01
+//@   implements Sequential.IsEmpty
+//@ func (array_).GetSize
+//@   props C01
+//@   implements Sequential.GetSize
+//@ func (array_).AsArray
+//@   props C01 C18 C17
+//@   implements Sequential.AsArray
+//@ func (array_).GetIterator
+//@   props C01 C17 C18
+//@   implements Sequential.GetIterator
+//@ func (array_).SetValue
+//@   props C01
+//@   implements Updatable.SetValue
+//@ func (array_).SetValues
+//@   props C01 C18
+//@   implements Updatable.SetValues
